@@ -588,31 +588,70 @@ def r3_positions(run, w):
   run.ob(R3, q, "result[col_rec] = Replacer(Text(col_rec.formula), patches).get_text()",
          "the patches of a record are applied to that record's own formula text and returned "
          "under it", ok, fi=fn.fi)
-  # producer side: the tuple layout of parse_grist_names.make_tuple
-  mk = w.fn("codebuilder.parse_grist_names.make_tuple")
-  mv = H.View(mk)
-  mps = mk.fi.params()
-  tuples = []
-  for s in walk_no_nested(mk.node):
-    if isinstance(s, ast.Return) and s.value is not None:
-      e, at = mv.resolve(s.value)
-      if isinstance(e, ast.Tuple):
-        tuples.append((e, at))
-  ok = len(mps) == 4 and len(tuples) == 1 and len(tuples[0][0].elts) == 4
-  if ok:
-    e, at = tuples[0]
-    ok = [mv.t(x, at=at) for x in e.elts[2:]] == mps[2:] and \
-        all(mv.reaching(p, at) == frozenset([mv.ENTRY]) for p in mps[2:]) and \
-        isinstance(e.elts[1], ast.Attribute) and e.elts[1].attr == "start" and \
-        _unpacked_from(mv, e.elts[1].value, at, "map_back_patch", 2) and \
-        _unpacked_from(mv, e.elts[0], at, "map_back_patch", 1)
+  _producer(run, R3, w)
+
+
+def _producer(run, R3, w):
+  """Producer side: the function of codebuilder that reports (owner, start, table, column) for
+  a name -- found by role (it returns a 4-tuple whose second component is `<patch>.start` of a
+  mapped-back patch), whether it is the closure parse_grist_names.make_tuple, a module-level
+  helper the closure delegates to, or a helper called directly."""
+  pg = "codebuilder.parse_grist_names"
+  cands = [fi for fi in w.repo.all_functions() if fi.qualname.startswith(pg + ".")]
+  called = {dotted(c.func) for c in calls_in(w.repo.func(pg).node.body, into_lambda=True)}
+  for fi in list(cands):
+    called |= {dotted(c.func) for c in calls_in(fi.node.body)}
+  mod = w.repo.module("codebuilder")
+  cands += [mod.functions[n] for n in sorted(called - {None}) if n in mod.functions]
+  found = []
+  absorbed = set()
+  for fi in cands:
+    fn = H.xfn(w, fi.qualname, keep=KEEP)
+    mv = H.View(fn)
+    for s in walk_no_nested(fn.node):
+      if isinstance(s, ast.Return) and s.value is not None:
+        e, at = mv.resolve(s.value)
+        if isinstance(e, ast.Tuple) and len(e.elts) == 4 and \
+            isinstance(e.elts[1], ast.Attribute) and e.elts[1].attr == "start":
+          found.append((fn, mv, e, at))
+          absorbed |= set(getattr(fn.fi, "inlined", ()))
+  found = [f for f in found if f[0].fi.qualname not in absorbed]
+  if len(found) != 1:
+    raise AnalysisError("codebuilder.parse_grist_names: %d functions report (owner, start, table, "
+                        "column) tuples (one expected)" % len(found))
+  mk, mv, e, at = found[0]
+  params = set(mk.fi.params())
+  is_param = lambda x: isinstance(mv.res(x, at=at), ast.Name) and \
+      mv.res(x, at=at).id in params and \
+      mv.reaching(mv.res(x, at=at).id, at) == frozenset([mv.ENTRY])
+  t_tab, t_col = mv.t(e.elts[2], at=at), mv.t(e.elts[3], at=at)
+  ok = is_param(e.elts[2]) and is_param(e.elts[3]) and t_tab != t_col and \
+      _unpacked_from(mv, e.elts[1].value, at, "map_back_patch", 2) and \
+      _unpacked_from(mv, e.elts[0], at, "map_back_patch", 1)
   run.ob(R3, mk.qualname, "return (in_value, in_patch.start, table_id, col_id)",
          "the producer reports (formula owner, start offset in the original formula, table, "
          "column) in the order the consumer unpacks", ok, fi=mk.fi)
-  asserts = [s for s in walk_no_nested(mk.node) if isinstance(s, ast.Assert)]
-  want = mv.atom(ast.parse("%s - %s == len(%s or %s)" % (mps[1], mps[0], mps[3], mps[2]),
-                           mode="eval").body)
-  ok = any(mv.atom(a.test) == want for a in asserts)
+  # the span handed in is as long as the name the consumer measures: col_id or table_id
+  ok = False
+  seen = []
+  for a in [s for s in walk_no_nested(mk.node) if isinstance(s, ast.Assert)]:
+    atom, pol = mv.atom(a.test)
+    seen.append(atom)
+    try:
+      c = ast.parse(atom, mode="eval").body
+    except SyntaxError:
+      continue
+    if not (pol and isinstance(c, ast.Compare) and len(c.ops) == 1 and
+            isinstance(c.ops[0], ast.Eq)):
+      continue
+    for (l, r) in ((c.left, c.comparators[0]), (c.comparators[0], c.left)):
+      if isinstance(l, ast.BinOp) and isinstance(l.op, ast.Sub) and \
+          isinstance(l.left, ast.Name) and isinstance(l.right, ast.Name) and \
+          {l.left.id, l.right.id} <= params and text(r) == "len(%s or %s)" % (t_col, t_tab):
+        ok = True
+  if not ok and not any("len(" in x for x in seen):
+    raise AnalysisError("%s: no assertion relates the span to the length of the name"
+                        % mk.qualname)
   run.ob(R3, mk.qualname, "name = col_id or table_id; assert end - start == len(name)",
          "producer and consumer measure the same old name", ok, fi=mk.fi)
 
